@@ -312,6 +312,21 @@ func runC07(c *Ctx) {
 	ruleNoPositiveAfterShortCopy(c)
 	// a chunk the server threw away for exceeding the size limit ends the transfer: otherwise a later "BDAT 0 LAST"
 	// closes the pipe cleanly and the backend reads a message with a chunk missing up to a clean end-of-file
+	// a chunk copy that failed (connection lost, read timeout, backend gone) ends the transfer: on every path to the
+	// handler's return the pipe is aborted (reset() or Close()), so a later "BDAT 0 LAST" cannot complete the truncated
+	// message with a clean end-of-file
+	c.R.Rule("R-failed-chunk-aborts", "E2 must-pass-through under hypothesis", "after io.Copy into the BDAT pipe returned an error every path through handleBdat passes through reset() or Close()", 1)
+	if f := c.A.Func("(*Conn).handleBdat"); f != nil {
+		_, s2 := c.Std()
+		nCp := 0
+		for _, cp := range s2.Find(f, "copy-to:Conn.bdatPipe") {
+			cp := cp
+			nCp++
+			errAtom := describe(cp.(ssa.Value)) + "#1 != nil"
+			c.obFollowH("failed chunk copy aborts the transfer", f, func(in ssa.Instruction) bool { return in == cp }, []string{lReset, lClose}, errAtom)
+		}
+		c.R.Ob("(*Conn).handleBdat/chunk copies found", c.P.Pos(f.Pos()), nCp >= 1, "no copy into the BDAT pipe")
+	}
 	c.R.Rule("R-oversize-chunk-aborts", "E2 must-pass-through", "after the 552 refusal of a chunk every path through handleBdat passes through reset() (which aborts the pipe with ErrDataReset)", 1)
 	if f := c.A.Func("(*Conn).handleBdat"); f != nil {
 		c.obFollow("552 then reset", f, c.direct("reply:552"), []string{lReset}, nil, nil)
